@@ -109,7 +109,11 @@ def _symbolic_leg(ob, job, cfg):
             sa = kit.make_solver("savi", pb, max_batch_size=job["bs"])
             sa.gamma = vi.gamma
             sv = sa._update_values(sa.batched_states, pb.action_space, pb.random_event_space, sa.gamma, vi.values)
-            return dict(init=init, new=val_of(new), pol=val_of(pol), pv=val_of(pv), sv=val_of(sv), V=val_of(vi.values),
+            # the convergence measures are functions of two full-length value vectors: they must not depend on the partition either
+            W = sym("W", (n,))
+            meas = dict(span=val_of(vi._get_span(W, vi.values)).reshape(())[()], max_diff=val_of(vi._get_max_diff(W, vi.values)).reshape(())[()],
+                        span_savi=val_of(sa._get_span(W, vi.values)).reshape(())[()], W=val_of(W))
+            return dict(meas=meas, init=init, new=val_of(new), pol=val_of(pol), pv=val_of(pv), sv=val_of(sv), V=val_of(vi.values),
                         gamma=val_of(vi.gamma)[()], policy=val_of(policy), shape=list(vi.batch_processor.batch_shape) + [vi.n_pad],
                         aspace=asp)
     with shadowed():
@@ -137,6 +141,12 @@ def _symbolic_leg(ob, job, cfg):
                             P=kit.model_array(m, L.P), V=kit.model_array(m, V), gamma=zx.model_value(m, g),
                             V0=kit.model_array(m, L.V0), policy=kit.model_array(m, r["policy"]))
             return f
+        from ..stubs.common import maxdiff_terms, span_terms
+        Wv = r["meas"]["W"]
+        mcex = lambda m: dict(kind="measure", state=0, cfg=cfg, devices=job["devices"], V=kit.model_array(m, V), W=kit.model_array(m, Wv))
+        ob.prove("span-measure", pre, zx.eq(r["meas"]["span"], span_terms(list(Wv), list(V))), cex=mcex, kind="span measure == max - min of the whole difference vector")
+        ob.prove("span-measure-savi", pre, zx.eq(r["meas"]["span_savi"], span_terms(list(Wv), list(V))), cex=mcex, kind="span measure == max - min of the whole difference vector")
+        ob.prove("max_diff-measure", pre, zx.eq(r["meas"]["max_diff"], maxdiff_terms(list(Wv), list(V))), cex=mcex, kind="max_diff measure == max |difference|")
         ob.prove("output-lengths", [], r["new"].shape == (n,) and r["init"].shape == (n,) and r["pol"].shape == (n, cfg["da"])
                  and r["pv"].shape == (n,) and r["sv"].shape == (n,), cex=lambda m: dict(kind="shape", cfg=cfg, devices=job["devices"]),
                  kind="every returned array has length n_states")
@@ -253,6 +263,18 @@ def replay(data):
         return (not ok), (f"{name} on {c['devices']} device(s), n_states={cfg['S']}, max_batch_size={cfg['bs']} "
                           f"(devices x batches x batch_size + pad = {_shape(cfg, c)}): {why or 'agrees with numpy'}")
     from ..tab import Tab
+    if c["kind"] == "measure":
+        V, W = (np.array(tofloat(c[k]), dtype=float) for k in ("V", "W"))
+        pb = kit.make_tab(cfg, 0)
+        msgs = []
+        for name in ("vi", "savi"):
+            s = kit.make_solver(name, pb, max_batch_size=cfg["bs"])
+            d = W - V
+            got = (float(s._get_span(jnp.asarray(W), jnp.asarray(V))), float(s._get_max_diff(jnp.asarray(W), jnp.asarray(V))))
+            want = (float(d.max() - d.min()), float(np.abs(d).max()))
+            if not np.allclose(got, want, rtol=1e-12, atol=0):
+                msgs.append(f"{name}: (span, max_diff) = {got}, whole-vector reference {want}")
+        return bool(msgs), "; ".join(msgs) or "measures agree with the whole-vector reference"
     T = np.array(c["T"], dtype=np.int64)
     R, P, V = (np.array(tofloat(c[k]), dtype=float) for k in ("R", "P", "V"))
     V0 = np.array(tofloat(c["V0"]), dtype=float)
@@ -262,7 +284,7 @@ def replay(data):
     Q = (P * (R + g * V[T])).sum(-1)
     B = Q.max(-1)
     i = c["state"]
-    tol = 1e-7 * max(np.abs(R).max(), np.abs(V).max(), 1e-300)
+    tol = kit.REPLAY_RTOL * max(np.abs(R).max(), np.abs(V).max(), 1e-300)
     if c["kind"] in ("sweep", "policy", "init", "leak", "shape"):
         s = kit.make_solver("vi", pb, max_batch_size=cfg["bs"])
         init = np.asarray(s.values)
